@@ -428,6 +428,26 @@ def _find_tuple_names(func, name):
     return [ast.unparse(e) for e in expr.elts]
 
 
+def generate_part(which):
+    """one generated module at a time, so that a failure stays local"""
+    meta = {}
+    if which == 'options':
+        L = ['import SqlModel.PyVal', 'namespace Sql.Gen']
+        gen_options(L, meta)
+        gen_stack_shape(L, meta)
+        gen_int_digits(L, meta)
+        L.append('end Sql.Gen')
+        L.append('')
+        return {'OptionTable.lean': '\n'.join(L)}, {'filters_options': meta}
+    if which == 'case':
+        return gen_case_tables(meta), {'filters_case': meta}
+    if which == 'filter':
+        return gen_filter_tables(meta), {'filters_tables': meta}
+    if which == 'indent':
+        return gen_indent_tables(meta), {'filters_indent': meta}
+    raise ValueError(which)
+
+
 def generate():
     files, meta = {}, {}
     L = ['import SqlModel.PyVal', 'namespace Sql.Gen']
